@@ -394,7 +394,8 @@ class _resolve_called_lambdas(ast.NodeTransformer):
                 }
                 self._arg_map_list.append(arg_map)
 
-                result = self.generic_visit(lambda_node.body)
+                # The body itself may be just an argument, so it has to be visited as well
+                result = self.visit(lambda_node.body)
                 self._arg_map_list.pop()
                 return result
         else:
